@@ -38,9 +38,17 @@ QUANTIFIED = 'grid length N (integer), all grid values X(j), all polynomial coef
 
 
 def grid(tier):
-    if tier == 'quick':
-        return [(1, 1), (1, 2), (2, 1), (2, 3), (3, 2), (4, 3)]
+    # both tiers cover the property's whole (n, m) range (every deriv group takes < 6 s); the tiers differ only in how
+    # much of fd_weights' own contract (C15) is re-discharged next to it
     return [(n, m) for n in range(1, 7) for m in range(1, 5)]
+
+
+def stencils(tier):
+    """(number of nodes, derivative order) pairs fd_derivative actually passes to fd_weights on grid(tier)"""
+    need = {}
+    for n, m in grid(tier):
+        need.setdefault(2 * (n // 2 + m) + 2, set()).add(n)
+    return sorted((size, sorted(ns)) for size, ns in need.items())
 
 
 def enumerated(tier):
@@ -55,6 +63,10 @@ def groups(tier):
     from . import C15
     for g, a in C15.groups(tier):
         out.append(('contract:fd_weights[%s]' % g, ('dep', 'C15', 'run_group', (a,), {})))
+    # ... and for exactly the stencil sizes and orders fd_derivative asks for (up to 16 nodes at n=6, m=4, which is past
+    # C15's own range of 14): the recursion step of _fd_weights_all at that size, for those orders
+    for size, ns in stencils(tier):
+        out.append(('contract:fd_weights[stencil[nodes=%d]]' % size, ('dep', 'C15', 'run_group', (('step', size, ns),), {})))
     return out
 
 
